@@ -120,6 +120,37 @@ def _added_in_value(variants: List[type], iv: Any, ov: Any, path: str) -> List[s
     return []
 
 
+def payload_loss(cls, inp: Dict[str, Any], out: Dict[str, Any], path: str = "") -> str:
+    """The exclude_none dump (the form the library puts on the wire) may drop null-valued *members of a model*;
+    everything inside untyped payloads (dict / list / Any: tool arguments, _meta, schemas, results) must come out
+    exactly as it went in, nulls included.  Recurses along the declared types; '' when nothing was lost."""
+    hints = modelgen._hints(cls)
+    fields = {(modelgen.SPEC_WIRE_NAMES.get(a) or f.alias or a): a for a, f in cls.model_fields.items()}
+    for k, v in inp.items():
+        if v is None:
+            continue
+        if k not in out:
+            return f"{path}.{k}: member lost under exclude_none (input value {v!r})"
+        ann = hints.get(fields[k]) if k in fields else None
+        d = _payload_loss_value(_model_variants(ann) if ann is not None else [], v, out[k], f"{path}.{k}")
+        if d:
+            return d
+    return ""
+
+
+def _payload_loss_value(variants: List[type], iv: Any, ov: Any, path: str) -> str:
+    if variants and isinstance(iv, dict) and isinstance(ov, dict):
+        results = [payload_loss(c, iv, ov, path) for c in variants]
+        return min(results, key=len)
+    if variants and isinstance(iv, list) and isinstance(ov, list) and len(iv) == len(ov):
+        for i, (a, b) in enumerate(zip(iv, ov)):
+            d = _payload_loss_value(variants, a, b, f"{path}[{i}]")
+            if d:
+                return d
+        return ""
+    return lossless_diff(iv, ov, path)
+
+
 def sentinel_wires() -> Dict[str, Dict[str, Any]]:
     """For every model that (transitively) holds an aliased field: a valid wire object with a sentinel in each."""
     from chuk_mcp.protocol.mcp_pydantic_base import McpPydanticBase
@@ -227,6 +258,11 @@ def run(ctx):
                 if wname in c["wire"] and tagged(val) != tagged(c["wire"][wname]):
                     ctx.violation("aliased_member_not_in_typed_view", f"{cls.__name__} ({backend}): wire member {wname!r}="
                                   f"{c['wire'][wname]!r} is not what attribute {attr!r} shows ({val!r})", case)
+            if "dump" in r:
+                ctx.count("exclude_none_dumps_checked")
+                d = payload_loss(cls, c["wire"], r["dump"])
+                if d:
+                    ctx.violation("payload_null_or_member_lost_under_exclude_none", f"{cls.__name__} ({backend}): {d}", case)
             extra = added_members(cls, c["wire"], full)
             if extra:
                 ctx.violation("member_invented", f"{cls.__name__} ({backend}): dump adds {extra}", case)
